@@ -1495,7 +1495,15 @@ pub fn run_parent(mode: &str, seed: u64, histories: u64, children: usize, sweep:
     // (a violating history is reported even if re-executions disagreed: code under test that
     // keeps state across calls makes histories depend on their predecessors - its defect, not ours)
     if mismatches > 0 && violations.is_empty() && batch.harness_error.is_none() {
-        batch.harness_error = Some("envsim: a re-executed history produced a different event-log hash".into());
+        if mode == "C08" {
+            // the C08 histories follow the choice the code under test reports; a decision that
+            // depends on what happened earlier in the process (C09's subject) changes the event
+            // log of a re-execution without being a mode defect or a simulator problem.  The
+            // simulator's own determinism is established by `./check setup` on the same code.
+            *batch.probes.entry("reexecution_differed_decision_depends_on_process_history".to_string()).or_insert(0) += mismatches as u64;
+        } else {
+            batch.harness_error = Some("envsim: a re-executed history produced a different event-log hash".into());
+        }
     }
     batch.violation = violations.into_iter().next();
     batch.distinct = sigs.len();
